@@ -202,9 +202,13 @@ def run_coq(fam, cases, tag, budget_numbers=12000):
     """cases: list of (id, args, obs).  Returns dict id -> verdict (nonzero only), raises on coqc failure"""
     os.makedirs(os.path.join(BUILD, "coqcases"), exist_ok=True)
     shards, cur, cnt = [], [], 0
+    max_cases = getattr(fam, "shard_cases", 400)
+    # spread over all cores when there is enough work
+    if len(cases) > 2 * JOBS:
+        max_cases = min(max_cases, max(4, len(cases) // (2 * JOBS) + 1))
     for c in cases:
         w = len(c[1]) + len(c[2]) + 4
-        if cur and cnt + w > budget_numbers:
+        if cur and (cnt + w > budget_numbers or len(cur) >= max_cases):
             shards.append(cur)
             cur, cnt = [], 0
         cur.append(c)
